@@ -146,7 +146,7 @@ func (f *farm) RoundTrip(r *http.Request) (*http.Response, error) {
 }
 
 func recC20() *vkit.Recorder {
-	r := vkit.Rec("C20", "exploration", "rapid-generated schedules over the real Explore + real scrape manager with a counting in-memory transport: 1-6 targets with scripted probe outcomes (fail k times then succeed, fail for ever; responses held 1-3 ms), 1-4 workers, retry interval 20 ms (hook), events get / remove / re-add / drop-job at multiples of 5 ms, then Gets every 5 ms until every reachable target succeeded and 10 further intervals; oracle over the request log (start/end per probe) and the values returned by Get; non-trivial = a target with >=1 failure before its success, or removed while failing; distinct = digest of the schedule")
+	r := vkit.Rec("C20", "exploration", "rapid-generated schedules over the real Explore + real scrape manager with a counting in-memory transport: 1-6 targets with scripted probe outcomes (fail k times then succeed, fail for ever; responses held 1-3 ms), 1-4 workers, retry interval 20 ms (hook), events get / remove / re-add / drop-job at multiples of 5 ms, then Gets every 5 ms until every reachable target succeeded and 10 further intervals; unit TestC20Flood: 9 999-20 001 targets asked for at once (queue capacity 10 000), each probed exactly once; oracle over the request log (start/end per probe) and the values returned by Get; non-trivial = a target with >=1 failure before its success, or removed while failing; distinct = digest of the schedule")
 	r.Assume("timing is used only in directions that cannot flake: gaps are lower-bounded by time.Sleep in the code under test; a missing retry is reported only after a 5 s grace period (250 retry intervals)")
 	return r
 }
@@ -579,4 +579,5 @@ func TestReplayC20(t *testing.T) {
 	if len(fails) > 0 {
 		t.Fatalf("%s", strings.Join(fails, "\n"))
 	}
+	replayFlood(t)
 }
